@@ -32,7 +32,7 @@ def gen_specs(pid, tier, seed, n_gen, n_corpus, nopt, symbolic=False):
         off = r.randrange(step)
         for d in dirs[off::step][:n_corpus]:
             specs.append({"kind": "corpus", "dir": os.path.relpath(d, NODE_DIR), "seed": seed,
-                          "lift": r.choice(["asis", "const", "const", "if"]), "nopt": 2})
+                          "lift": r.choice(["asis", "const", "const", "if", "fn", "fnconst"]), "nopt": 2})
     return specs
 
 
@@ -79,6 +79,13 @@ def lift(m, ins, how):
     feeds = {i.name: a for i, a in zip(real_inputs, ins)}
     if how == "asis":
         return m, feeds
+    if how in ("fn", "fnconst"):
+        f = _lift_fn(m, real_inputs, init_names)
+        if f is None:
+            return None
+        if how == "fn":
+            return f, feeds
+        return lift(f, ins, "const")
     if any(i.type.WhichOneof("value") != "tensor_type" for i in real_inputs):
         return None
     if m.ir_version < 4:
@@ -158,6 +165,40 @@ def lift(m, ins, how):
             o.name = nm
         return m2, feeds
     return None
+
+
+def _lift_fn(m, real_inputs, init_names):
+    """The whole body becomes a model-local function vf.corpus::Body called once from the main graph (initializers
+    become Constant nodes of the function): exercises the inliner and everything downstream on real operator semantics."""
+    if m.ir_version < 4 or any(i.name in init_names for i in m.graph.input):
+        return None
+    if any(t.data_location == onnx.TensorProto.EXTERNAL for t in m.graph.initializer) or m.graph.sparse_initializer:
+        return None
+    if any(n.domain == "vf.corpus" for n in m.graph.node):
+        return None
+    fn = onnx.FunctionProto()
+    fn.domain, fn.name = "vf.corpus", "Body"
+    fn.input.extend(i.name for i in real_inputs)
+    fn.output.extend(o.name + "__f" for o in m.graph.output)
+    for t in m.graph.initializer:
+        fn.node.append(oh.make_node("Constant", [], [t.name], value=t))
+    fn.node.extend(m.graph.node)
+    # function outputs get fresh names (a graph output that is also a function-internal name would clash in the main graph)
+    for o in m.graph.output:
+        fn.node.append(oh.make_node("Identity", [o.name], [o.name + "__f"]))
+    fn.opset_import.extend(m.opset_import)
+    if not any(o.domain == "" for o in fn.opset_import):
+        return None
+    m2 = onnx.ModelProto()
+    m2.CopyFrom(m)
+    m2.ir_version = max(m.ir_version, 8)
+    del m2.graph.node[:]
+    del m2.graph.initializer[:]
+    del m2.graph.value_info[:]
+    m2.graph.node.append(oh.make_node("Body", [i.name for i in real_inputs], [o.name for o in m.graph.output], domain="vf.corpus"))
+    m2.functions.append(fn)
+    m2.opset_import.append(oh.make_opsetid("vf.corpus", 1))
+    return m2
 
 
 def _feeds_for(rng, info, n=3):
